@@ -216,7 +216,54 @@ def r_svecs(p, seed=0):
     return worst, "get_smallest_vectors (dense and sparse kernels) vs brute-force minimum images: %s" % p["lat"]
 
 
-REFSEM = {"thmfam": r_thmfam, "svecs": r_svecs, "dynmat": r_dynmat, "d2f": r_d2f, "ddm": r_ddm, "thermal": r_thermal, "thm": r_thm, "thmesh": r_thmesh, "perm": r_perm}
+def r_gonzedd(p, seed=0):
+    """Reciprocal-space dipole-dipole term of the Gonze-Lee scheme (their Eq. 71): compiled kernel vs a numpy transcription
+    sum_G  Z_i[a',a] Z_j[b',b] K_a' K_b' / (K.eps.K) exp(-K.eps.K / 4 Lambda^2) exp(2 pi i G.(r_i - r_j)),  K = G + q,
+    minus the q -> 0 self term, times 4 pi / V * unit factor.  Born tensors are NOT symmetric matrices here."""
+    c = phx.xtal(p.get("xtal", "tri-P1-3"))
+    ph = phx.make_phonopy(c, p.get("S", [[2, 0, 0], [0, 1, 0], [0, 0, 1]]), None)
+    ph.force_constants = phx.supercell_fc(ph, phx.model_for(ph, "nn", seed))
+    g = np.random.default_rng(77 + seed)
+    nat = len(ph.primitive)
+    born = g.normal(size=(nat, 3, 3)) * 0.6 + np.array([np.eye(3) * (1.5 if i % 2 == 0 else -1.5) for i in range(nat)])
+    born -= born.mean(axis=0)
+    eps = np.eye(3) * 2.9 + 0.3 * g.normal(size=(3, 3))
+    eps = (eps + eps.T) / 2
+    ph.nac_params = {"born": born, "dielectric": eps, "factor": 14.399652, "method": "gonze", "G_cutoff": p.get("G_cutoff", 1.0)}
+    dm = ph.dynamical_matrix
+    dm.make_Gonze_nac_dataset()
+    Z, E = np.array(dm._born), np.array(dm._dielectric)
+    G, lam = np.array(dm._G_list), float(dm._Lambda)
+    pos = np.array(ph.primitive.positions)
+    fac = dm._unit_conversion * 4.0 * np.pi / ph.primitive.volume
+    dq0 = np.array(dm._dd_q0)
+    tol = dm.Q_DIRECTION_TOLERANCE
+    worst = 0.0
+    for q_red, qdir in (([0.11, 0.23, -0.31], None), ([0.5, 0.0, 0.0], None), ([0.0, 0.0, 0.0], [0.3, -0.2, 0.5]), ([0.0, 0.0, 0.0], None)):
+        rec = np.linalg.inv(np.asarray(ph.primitive.cell))
+        qc = rec @ np.array(q_red, float)
+        dc = None if qdir is None else rec @ np.array(qdir, float)
+        got = np.array(dm._get_c_recip_dipole_dipole(qc, dc))
+        part = np.zeros((nat, 3, nat, 3), dtype=complex)
+        for Gv in G:
+            K = Gv + qc
+            if np.linalg.norm(K) < tol:
+                if dc is None:
+                    continue
+                KK = np.outer(dc, dc) / (dc @ E @ dc)
+            else:
+                KK = np.outer(K, K) / (K @ E @ K) * np.exp(-(K @ E @ K) / (4 * lam * lam))
+            ph_ = np.exp(2j * np.pi * ((pos[:, None, :] - pos[None, :, :]) @ Gv))
+            part += KK[None, :, None, :] * ph_[:, None, :, None]
+        want = np.einsum("ima,jnb,imjn->iajb", Z, Z, part)
+        for i in range(nat):
+            want[i, :, i, :] -= dq0[i]
+        want *= fac
+        worst = max(worst, float(np.abs(got - want).max() / max(np.abs(want).max(), 1e-12)))
+    return worst, "recip_dipole_dipole kernel vs numpy transcription of Gonze-Lee Eq. 71 (non-symmetric Born tensors)"
+
+
+REFSEM = {"gonzedd": r_gonzedd, "thmfam": r_thmfam, "svecs": r_svecs, "dynmat": r_dynmat, "d2f": r_d2f, "ddm": r_ddm, "thermal": r_thermal, "thm": r_thm, "thmesh": r_thmesh, "perm": r_perm}
 
 
 def matrix(tier):
@@ -244,6 +291,8 @@ def matrix(tier):
         out.append(("perm", {"xtal": xt, "S": S}))
     for a in (1.0, 1.3, 2.1):
         out.append(("thmfam", {"a": a}))
+    out.append(("gonzedd", {"xtal": "tri-P1-3"}))
+    out.append(("gonzedd", {"xtal": "wurtzite-4", "S": [[1, 0, 0], [0, 1, 0], [0, 0, 1]]}))
     if tier != "quick":
         S3 = [[2, 0, 0], [0, 2, 0], [0, 0, 1]]
         S4 = [[1, 0, 1], [0, 2, 0], [-1, 0, 1]]
